@@ -49,6 +49,18 @@ class Frame():
             vertices_objects = [self.vertices[vid] for vid in big_edge]
             self.big_edges[big_edge_id] = fedge.BigEdge(big_edge_id, vertices_objects)
 
+        # the two ends of a two-vertex big edge can share a third cell that does not contain the edge between them
+        # (a cell with only two junctions): the cells it separates are those that list the two vertices next to each other
+        for big_edge in self.big_edges.values():
+            if len(big_edge.vertices) == 2 and len(big_edge.own_cells) > 2:
+                end_ids = {big_edge.vertices[0].id, big_edge.vertices[1].id}
+                separated = []
+                for cid in big_edge.own_cells:
+                    cell_ids = [vertex.id for vertex in self.cells[cid].vertices]
+                    if any({cell_ids[ii - 1], cell_ids[ii]} == end_ids for ii in range(len(cell_ids))):
+                        separated.append(cid)
+                big_edge.own_cells = separated
+
         self.external_edges_id = [self.big_edges_list.index(e) 
                                     for e in fs.virtual_edges.get_border_edge(self.big_edges_list, 
                                                                 self.vertices)]
